@@ -16,10 +16,11 @@ Print Assumptions C18_arity_table_complete.
 
 (* bind_first as it is written now: placeholders start at _1, bound values are taken BY VALUE (copied at connect
    time), std::bind receives callable, bound values, placeholders in this order, the number of placeholders is
-   get_arity<Func>() - sizeof...(Args) *)
+   get_arity<Func>() - sizeof...(Args), and bind_first itself is nothing but `return bind_first_helper(...)` - no other path builds
+   the callable that connect() stores *)
 Theorem C18_bind_first_shape :
   placeholder_offset = 1 /\ bound_args_by_value = true /\ bind_argument_order_ok = true /\
-  index_count_expr = "get_arity<Func>()-sizeof...(Args)"%string.
+  index_count_expr = "get_arity<Func>()-sizeof...(Args)"%string /\ bind_first_is_one_return_of_helper = true.
 Proof. vm_compute. repeat split; reflexivity. Qed.
 Print Assumptions C18_bind_first_shape.
 
